@@ -217,7 +217,7 @@ def run(src, tier, seed):
     # ---- R7 error literal only in reporter
     r = res.rule('error-literal', 'the "(error" response prefix is produced only inside notify_formatted', floor=1)
     for i, f in fx.F.items():
-        if not (f['file'].startswith(fx.src_root + '/api') or f['file'].startswith(fx.src_root + '/bin')):
+        if not fx.rel(f['file']).startswith(('src/api/', 'src/bin/')):
             continue
         for n in fwalk(f):
             if n.get('k') == 'str' and n['v'].lstrip().startswith('(error'):
